@@ -1,6 +1,6 @@
 (** Properties_C01.v — C01: the WebDAV file server behaves like the RFC 4918
     resource-tree model.  Statements only, each closed by [exact]. *)
-From GW Require Import Base GoPath Fs DavServer Rfc4918 FsProofs DavRefine DavCorollaries UploadSteps UploadStepsProofs CopySteps CopyStepsProofs.
+From GW Require Import Base GoPath Fs DavServer Rfc4918 FsProofs DavRefine DavCorollaries UploadSteps UploadStepsProofs CopySteps CopyStepsProofs SortedProofs.
 Local Open Scope list_scope.
 
 (** One request on any tree (any size, names, contents), any served root: the model
@@ -123,3 +123,28 @@ Theorem C01_put_is_upload : forall root sb r segs tmp chunks,
   = fst (do_put root sb r).
 Proof. exact put_is_upload. Qed.
 Print Assumptions C01_put_is_upload.
+
+(** Listings stay in OS order: [serve] and every history turn a sandbox whose
+    directory listings are strictly increasing (byte-wise, as os.ReadDir and
+    filepath.Walk deliver them) into one with the same property, so the
+    [sorted_tree] hypothesis above holds in every reachable state. *)
+Theorem C01_listings_stay_sorted : forall root sb r,
+  sorted_otree sb = true -> sorted_otree (fst (serve root sb r)) = true.
+Proof. exact serve_sorted. Qed.
+Print Assumptions C01_listings_stay_sorted.
+
+Theorem C01_listings_stay_sorted_history : forall root rs sb,
+  sorted_otree sb = true -> sorted_otree (fst (run root sb rs)) = true.
+Proof. exact run_sorted. Qed.
+Print Assumptions C01_listings_stay_sorted_history.
+
+Theorem C01_copy_is_walk_reachable : forall root sb r dst recursive overwrite ss n ds created,
+  sorted_otree sb = true ->
+  copy_move_checks root sb (rpath r) dst overwrite = GOk (ss, n, ds, created) ->
+  fst (do_copy root sb r dst recursive overwrite)
+  = match copy_walk (remo sb (hp root ds)) (hp root ds) (stamp r) n recursive with
+    | Some sb' => Some sb'
+    | None => sb
+    end.
+Proof. exact copy_is_walk_sorted. Qed.
+Print Assumptions C01_copy_is_walk_reachable.
